@@ -62,7 +62,18 @@ def gen_cases(tier, seed):
         cases.append(frame(rng, rng.randrange(2), rng.choice([0x008a, 0x010a, 0x13ca, 0x030a, rng.randrange(65536)]),
                            rng.choice([0, rng.randrange(0, 2100)]), rng.choice([0, rng.randrange(0, 1200)]),
                            trunc=rng.choice([None, None, None, rng.randrange(0, 130)])))
-    return cases, {"key_info_values": len(kis), "total": len(cases)}
+    # the same frames as captured: behind a radiotap header, and behind one that announces an FCS (the classifier removes it and
+    # sets a flag; the EAPOL routines must work on what the classifier kept)
+    from . import frames as F
+    n_wrapped = 0
+    for declared in (0, 1, 16, 100, 1024, 1025):
+        for avail in (0, 3, 4, 5, 16, 100, 1024, 1030):
+            for qos in (0, 1):
+                fr = bytes.fromhex(frame(rng, qos, rng.choice([0x008a, 0x13ca]), declared, avail).split()[2])
+                for mode in (1, 2):
+                    rt, buf = F.wrap(rng, fr, mode)
+                    cases.append("eapol %d %s" % (rt, hx(buf))); n_wrapped += 1
+    return cases, {"key_info_values": len(kis), "radiotap_wrapped": n_wrapped, "total": len(cases)}
 
 
 def judge(case, impl, model, spec=None):
